@@ -366,7 +366,7 @@ func depth2(thorough bool) []group {
 // depth3 enumerates spines: every shape with one slot holding a depth-2 pattern (built from a small kid pool) and the
 // other slot (if any) an atom of the small pool.
 func depth3() []group {
-	small := []*Pat{pLit(vi(1)), pBind(), pWild(), pRel("<", vi(2))}
+	small := []*Pat{pLit(vi(1)), pBind(), pWild()}
 	var inner []*Pat
 	for _, s := range shapes() {
 		inner = append(inner, fill(s, small)...)
@@ -380,9 +380,7 @@ func depth3() []group {
 			}
 		} else {
 			for _, in := range inner {
-				for _, o := range small {
-					ps = append(ps, s.mk([]*Pat{in.clone(), o.clone()}), s.mk([]*Pat{o.clone(), in.clone()}))
-				}
+				ps = append(ps, s.mk([]*Pat{in.clone(), pBind()}), s.mk([]*Pat{pBind(), in.clone()}))
 			}
 		}
 		gs = append(gs, group{"d3/" + s.name, ps})
